@@ -3,7 +3,7 @@
 //! parsed input converge. C12 forbids panics only for "formulas whose fixed points converge";
 //! a panic during evaluation of an input whose iteration provably cycles is not judged.
 
-use rsbdd::parser::{BinaryOperator, CountableOperator, ParsedFormula, QuantifierType, SymbolicBDD};
+use rsbdd::parser::{BinaryOperator, CountableOperator, ParsedFormula, QuantifierType, ReferenceContents, SymbolicBDD};
 
 use super::fast::{BinOp, CmpOp, EvalError, Evaluator, F};
 
@@ -30,36 +30,33 @@ fn bin(op: BinaryOperator) -> BinOp {
     }
 }
 
-/// None when the tree contains something the model has no counterpart for.
-pub fn from_symbolic(s: &SymbolicBDD) -> Option<F> {
+/// None when the tree contains something the model has no counterpart for. References are
+/// resolved the way the library does it: an undefined name is `false`, a syntax definition is
+/// inlined in place (so a fixed-point variable in it is bound dynamically, as `replace_var` does).
+pub fn from_symbolic(s: &SymbolicBDD, defs: &dyn Fn(&str) -> Option<ReferenceContents>, depth: usize) -> Option<F> {
+    let go = |x: &SymbolicBDD| from_symbolic(x, defs, depth);
+    let list = |l: &Vec<SymbolicBDD>| l.iter().map(go).collect::<Option<Vec<_>>>();
     Some(match s {
         SymbolicBDD::False => F::Const(false),
         SymbolicBDD::True => F::Const(true),
         SymbolicBDD::Var(v) => F::Var(v.name.as_ref().clone()),
-        SymbolicBDD::Not(a) => F::Not(Box::new(from_symbolic(a)?)),
+        SymbolicBDD::Not(a) => F::Not(Box::new(go(a)?)),
         SymbolicBDD::Quantifier(q, vs, a) => F::Quant(
             matches!(q, QuantifierType::Forall),
             vs.iter().map(|v| v.name.as_ref().clone()).collect(),
-            Box::new(from_symbolic(a)?),
+            Box::new(go(a)?),
         ),
-        SymbolicBDD::CountableConst(op, l, n) => F::CountC(
-            cmp(*op),
-            l.iter().map(from_symbolic).collect::<Option<Vec<_>>>()?,
-            *n as u64,
-        ),
-        SymbolicBDD::CountableVariable(op, l, r) => F::CountL(
-            cmp(*op),
-            l.iter().map(from_symbolic).collect::<Option<Vec<_>>>()?,
-            r.iter().map(from_symbolic).collect::<Option<Vec<_>>>()?,
-        ),
-        SymbolicBDD::FixedPoint(v, init, a) => F::Fix(*init, v.name.as_ref().clone(), Box::new(from_symbolic(a)?)),
-        SymbolicBDD::Ite(c, t, e) => F::Ite(
-            Box::new(from_symbolic(c)?),
-            Box::new(from_symbolic(t)?),
-            Box::new(from_symbolic(e)?),
-        ),
-        SymbolicBDD::BinaryOp(op, a, b) => F::Bin(bin(*op), Box::new(from_symbolic(a)?), Box::new(from_symbolic(b)?)),
-        SymbolicBDD::Subtree(_) | SymbolicBDD::Reference(_) => return None,
+        SymbolicBDD::CountableConst(op, l, n) => F::CountC(cmp(*op), list(l)?, *n as u64),
+        SymbolicBDD::CountableVariable(op, l, r) => F::CountL(cmp(*op), list(l)?, list(r)?),
+        SymbolicBDD::FixedPoint(v, init, a) => F::Fix(*init, v.name.as_ref().clone(), Box::new(go(a)?)),
+        SymbolicBDD::Ite(c, t, e) => F::Ite(Box::new(go(c)?), Box::new(go(t)?), Box::new(go(e)?)),
+        SymbolicBDD::BinaryOp(op, a, b) => F::Bin(bin(*op), Box::new(go(a)?), Box::new(go(b)?)),
+        SymbolicBDD::Reference(name) => match defs(name) {
+            None => F::Const(false),
+            Some(ReferenceContents::Syntax(syntax)) if depth > 0 => from_symbolic(&syntax, defs, depth - 1)?,
+            Some(_) => return None,
+        },
+        SymbolicBDD::Subtree(_) => return None,
     })
 }
 
@@ -67,7 +64,7 @@ pub fn from_symbolic(s: &SymbolicBDD) -> Option<F> {
 /// library's iteration cannot terminate either (outside C12). Some(true): every fixed point
 /// converges. None: undecided (too many names, unknown construct).
 pub fn fixed_points_converge(pf: &ParsedFormula) -> Option<bool> {
-    let f = from_symbolic(&pf.bdd)?;
+    let f = from_symbolic(&pf.bdd, &|n| pf.get_definition(n), 8)?;
     if !f.has_fix() {
         return Some(true);
     }
